@@ -70,6 +70,28 @@ func clientEngine(prop string, gen func(*core.Rng) *KPlan, race bool) *core.Engi
 	}
 }
 
+func coalesceEngine() *core.Engine[QPlan] {
+	return &core.Engine[QPlan]{
+		Property:        "C15",
+		Name:            "coalesce-pool",
+		Gen:             GenQPlan,
+		Valid:           func(p *QPlan) bool { return p.Valid() },
+		Exec:            ExecQPlan,
+		ProbeNames:      qProbeNames,
+		FaultNames:      qFaultNames,
+		RaceIsViolation: true,
+		NontrivialRule: "a run is non-trivial when its tasks execute >= 2 operations over >= 1 message group; distinct = distinct hash of the total-order " +
+			"operation history (task, operation, group, virtual time) together with every oracle verdict",
+		Components: map[string][]string{
+			"real": {"aucoalesce.CoalesceMessages", "aucoalesce.ResolveIDs / ResolveIDsFromCaches with the global and per-task EntityCaches", "auparse.Parse, AuditMessage.Data/Tags/ToMapStr",
+				"embedded normalisation tables", "os/user lookups against the sandbox's /etc/passwd and /etc/group"},
+			"stub": {"goroutine scheduling (seeded scheduler at operation granularity)", "clock (virtual; drives the 60 s cache expiry)"},
+		},
+		Assumptions: []string{"tasks work on disjoint message groups and events (the property promises nothing about sharing one event between goroutines)",
+			"Go map iteration order inside the library is not controllable; warnings are compared as sorted multisets"},
+	}
+}
+
 // Dispatch runs the worker for the property named in the configuration.
 func Dispatch(t *testing.T, cfg core.Config) {
 	switch cfg.Property {
@@ -85,6 +107,8 @@ func Dispatch(t *testing.T, cfg core.Config) {
 		core.RunWorker(t, cfg, reasmSeqEngine("C19", 19))
 	case "C11":
 		core.RunWorker(t, cfg, reasmConcEngine())
+	case "C15":
+		core.RunWorker(t, cfg, coalesceEngine())
 	case "C08":
 		core.RunWorker(t, cfg, clientEngine("C08", GenKPlanC08, false))
 	case "C16":
